@@ -46,6 +46,15 @@ def run(tier, seed):
         qs = [0.0, 1.0] + [rng.random() for _ in range(9)]
         jq = [b.emit("q r %s" % f2h(q)) for q in qs]
         js = [b.emit("kstats s"), b.emit("kstats r")] if exact else None
+        # the result and the source are independent sketches afterwards (whatever the scale): mutate one, the other is unchanged
+        jr0 = b.emit("kobs r"); jst0 = b.emit("kstats r") if exact else None
+        b.emit("kadd s %s" % f2h(7.5), "ok"); b.emit("kadd s %s %s" % (f2h(-3.25), f2h(2.0)), "ok")
+        b.emit("kobs r", ("same", jr0))
+        if exact: b.emit("kstats r", ("same", jst0))
+        js0 = b.emit("kobs s"); jss0 = b.emit("kstats s") if exact else None
+        b.emit("kadd r %s" % f2h(11.0 * scale), "ok"); b.emit("kclear r", "ok")
+        b.emit("kobs s", ("same", js0))
+        if exact: b.emit("kstats s", ("same", jss0))
         cases.append(b.case()); metas.append({"b": b, "s1": s1, "s2": s2, "scale": scale, "exact": exact, "j0": j0, "jr": jr, "jo": jo, "jq": jq, "qs": qs, "js": js, "identity": (s1 == s2 and scale == 1.0)})
     res = core.run_cases(pid, "conv", cases)
     # phase 2: lower bounds of every source / target bin involved
